@@ -93,31 +93,34 @@ Definition nv_feed : bytes := repeat 17 32.
 Definition nv_report (vs : list (option sval)) : report :=
   {| r_chan := 7; r_va := 1700000000500000000; r_ts := 1700000001900000000; r_values := vs; r_specimen := false;
      r_def := {| cd_fmt := 1; cd_streams := []; cd_opts := [] |} |}.
+Definition with_ok (r : res bytes) (p : bytes -> bool) : bool := match r with Ok bs => p bs | _ => false end.
 Example C12_nv_legacy :
   let o := {| lo_fee := mkdec 15 (-1); lo_window := 3600; lo_feed := nv_feed; lo_mult := Some (10 ^ 18) |} in
   let r := nv_report [Some (SDec (mkdec 3000 0)); Some (SDec (mkdec 7 0)); Some (SQuote (mkdec (-15) (-1)) (mkdec 25 (-1)) (mkdec 3 0))] in
   legacy_verify (Some o) 3 = true /\
-  exists bs, legacy_encode (Some o) r = Ok bs /\ length bs = 288%nat /\ legacy_spec o r bs = true /\
-    be_value (firstn 32 (skipn 96 bs)) = 500000000000000 /\            (* 1.5 / 3000 * 1e18 *)
-    be_value (firstn 32 (skipn 128 bs)) = 214285714285714286 /\        (* 1.5 / 7 * 1e18, rounded half up *)
-    twos_read (firstn 32 (skipn 224 bs)) = - 1500000000000000000.
-Proof. cbv zeta. split; [reflexivity|]. eexists. repeat split; vm_compute; reflexivity. Qed.
+  with_ok (legacy_encode (Some o) r) (fun bs =>
+    (length bs =? 288)%nat && legacy_spec o r bs &&
+    (be_value (firstn 32 (skipn 96 bs)) =? 500000000000000) &&             (* 1.5 / 3000 * 1e18 *)
+    (be_value (firstn 32 (skipn 128 bs)) =? 214285714285714286) &&         (* 1.5 / 7 * 1e18, rounded half up *)
+    (twos_read (firstn 32 (skipn 224 bs)) =? - 1500000000000000000)) = true.
+Proof. split; vm_compute; reflexivity. Qed.
 Example C12_nv_unpacked :
   let o := {| uo_fee := mkdec 1 0; uo_window := 60; uo_feed := nv_feed;
               uo_abi := [[{| e_type := str_bytes "int192"; e_mult := Some 100 |}];
                          [{| e_type := str_bytes "uint64"; e_mult := None |}; {| e_type := str_bytes "int24"; e_mult := Some (-1000) |}]] |} in
   let r := nv_report [Some (SDec (mkdec 2 0)); None; Some (SDec (mkdec (-12345) (-3))); Some (STsv 99 (SDec (mkdec 8388 (-3))))] in
   unpacked_verify (Some o) 4 = true /\
-  exists bs, unpacked_encode (Some o) r = Ok bs /\ length bs = 288%nat /\ unpacked_spec o r bs = true /\
-    twos_read (firstn 32 (skipn 192 bs)) = - 1234 /\ twos_read (firstn 32 (skipn 256 bs)) = - 8388.
-Proof. cbv zeta. split; [reflexivity|]. eexists. repeat split; vm_compute; reflexivity. Qed.
+  with_ok (unpacked_encode (Some o) r) (fun bs =>
+    (length bs =? 288)%nat && unpacked_spec o r bs &&
+    (twos_read (firstn 32 (skipn 192 bs)) =? - 1234) && (twos_read (firstn 32 (skipn 256 bs)) =? - 8388)) = true.
+Proof. split; vm_compute; reflexivity. Qed.
 Example C12_nv_streamlined :
   let o := {| so_feed := None; so_abi := [[{| e_type := str_bytes "uint32"; e_mult := None |}];
                                            [{| e_type := str_bytes "bytes0"; e_mult := None |}; {| e_type := str_bytes "int16"; e_mult := None |}]] |} in
   let r := nv_report [Some (SDec (mkdec 4294967295 0)); Some (STsv 5 (SDec (mkdec (-2) 0)))] in
   streamlined_verify (Some o) 2 = true /\
-  exists bs, streamlined_encode (Some o) 6 r = Ok bs /\ length bs = 22%nat /\ streamlined_spec o 6 r bs = true.
-Proof. cbv zeta. split; [reflexivity|]. eexists. repeat split; vm_compute; reflexivity. Qed.
+  with_ok (streamlined_encode (Some o) 6 r) (fun bs => (length bs =? 22)%nat && streamlined_spec o 6 r bs) = true.
+Proof. split; vm_compute; reflexivity. Qed.
 Example C12_nv_unfit :
   let o := {| lo_fee := mkdec 1 0; lo_window := 1; lo_feed := nv_feed; lo_mult := None |} in
   legacy_encode (Some o) (nv_report [None; None; Some (SQuote (mkdec 1 0) (mkdec (2 ^ 191) 0) (mkdec 1 0))]) = Err EOutOfRange /\
